@@ -225,6 +225,9 @@ static RunResult run_once(const std::vector<Op> &hist, const Op *op, int K, int 
     if (g_reloc == 2) relocate_all(w);
   }
   if (vf::L().nfail) r.prefix_failed = true;
+  // failures of observational oracles on the prefix were reported when that transition was explored
+  vf::L().nfail = 0;
+  vf::L().fail_total = 0;
   r.key_before = key_of(w);
   if (enabled) enumerate(w, o, *enabled);
   if (op) {
@@ -257,6 +260,25 @@ static std::string jesc(const std::string &s) {
     else r += c;
   }
   return r;
+}
+
+
+/// A failed oracle stops the expansion of the successor state when model and code may have diverged (contents,
+/// lifetimes, crashes).  Failures of purely observational oracles (allocation counting, allocator protocol, capacity /
+/// address rules) are recorded but the successor is still explored: their consequences for other properties stay visible.
+static bool failure_is_fatal() {
+  for (int f = 0; f < vf::L().nfail; ++f) {
+    std::string t = vf::L().fails[f].tags;
+    size_t a = 0;
+    while (a <= t.size()) {
+      size_t b = t.find(',', a);
+      if (b == std::string::npos) b = t.size();
+      std::string tag = t.substr(a, b - a);
+      if (!(tag == "C05" || tag == "C06" || tag == "C07" || tag == "C18")) return true;
+      a = b + 1;
+    }
+  }
+  return vf::L().fail_total > vf::LedgerT::FAIL_CAP;
 }
 
 struct State {
@@ -383,7 +405,7 @@ int main(int argc, char **argv) {
     std::vector<Op> h = history((int)cur);
     crumb(h, nullptr, 0);
     RunResult rp = run_once(h, nullptr, K, L, &enabled, o);
-    if (rp.key_before != keys[cur] || rp.nfail) {
+    if (rp.key_before != keys[cur]) {
       nondet = "canon-on-replay failed for state " + keys[cur] + " via " + hist_str(h) + " got " + rp.key_before;
       break;
     }
@@ -409,7 +431,7 @@ int main(int argc, char **argv) {
           if (viol_sigs.insert(norm).second && viols.size() < 200)
             viols.push_back(VRec{vf::L().fails[f].tags, vf::L().fails[f].msg, hist_str(h), op_str(op), keys[cur]});
         }
-        continue;  // the successor of a violating transition is not expanded (model and code have diverged)
+        if (failure_is_fatal()) continue;  // the successor is not expanded (model and code may have diverged)
       }
       auto it = seen.find(r.key_after);
       if (it == seen.end()) {
